@@ -38,3 +38,15 @@ Definition kind_name (k : kind) : string :=
 (* layouts: a vector that is the concatenation of the variable blocks of these kinds has this length; one operation's vector *)
 Definition layout_len (s : sizes) (l : list kind) : Z := sumz (map (size_kind s) l).
 Definition opref_len (s : sizes) (r : kind * Z) : pyres Z := py_call_size (s (fst r)) (snd r).
+
+(* the operations of a set in a given order of kinds, each as (kind, index within its kind, number of variables) *)
+Definition all_ops (s : sizes) (order : list kind) : list (kind * Z * Z) :=
+  flat_map (fun k => map (fun i => (k, Z.of_nat i, nth i (s k) 0%Z)) (seq 0 (List.length (s k)))) order.
+Definition op_kind (o : kind * Z * Z) : kind := fst (fst o).
+Definition op_index (o : kind * Z * Z) : Z := snd (fst o).
+Definition op_size (o : kind * Z * Z) : Z := snd o.
+
+(* v[a:b] for 0 <= a <= b, and the pieces a front-to-back consumption of v hands out for a list of sizes *)
+Definition slice {A : Type} (v : list A) (a b : Z) : list A := firstn (Z.to_nat (b - a)) (skipn (Z.to_nat a) v).
+Fixpoint chunks_model {A : Type} (szs : list Z) (v : list A) : list (list A) :=
+  match szs with [] => [] | z :: t => firstn (Z.to_nat z) v :: chunks_model t (skipn (Z.to_nat z) v) end.
